@@ -140,6 +140,22 @@ CLAIMED = {
              "are outside (the start is not a tree node); fakeh5 backend; reopening is libhdf5. "
              "Counterexamples are replayed on a real HDF5 file.",
         ref="3 C13"),
+    "C14": dict(
+        text="File.validate()['errors'] equals, object by object, the expectation computed from a "
+             "symbolic injection recipe by an independent specification of the catalogue: for arrays "
+             "of rank 1-2 with a missing / surplus descriptor and one injected descriptor of any kind "
+             "(label counts; interval 1, 0, <0, missing; ticks sorted / short / long / unsorted / equal "
+             "/ missing; units from a table with non-SI and compound entries); for a deleted type / "
+             "name / creation date on each of 9 entity kinds incl. nested sources and sections; for "
+             "tags and multi-tags around a consistent base with single (quick) or pairwise (thorough) "
+             "injections of position / extent / unit lengths, one unit value, one dimension unit, no "
+             "reference, differing row counts. Consistent recipes report nothing; untouched objects "
+             "are never reported.",
+        note="Runs on fakeh5; expected reports come from the recipe, not from reading the file; "
+             "'RangeDimTicksMismatch' for a dimension without ticks is accepted but not required; one "
+             "known finding (KF-C14-1: a missing entity id aborts validation). Counterexamples are "
+             "replayed on a real HDF5 file.",
+        ref="3 C14"),
 }
 
 NOT_APPLICABLE = {
